@@ -329,6 +329,8 @@ func runList(hs *history) (fails []h.Failure) {
 					fail("reverse-result-not-a-list", err.Error())
 					return
 				}
+				// ... and so does changing its ITEMS in place
+				touchItems(got, n)
 			case "contains", "find":
 				needle := poolValue(o.V)
 				pos := 0
@@ -405,6 +407,25 @@ func runList(hs *history) (fails []h.Failure) {
 		fails = append(fails, h.Failure{Sig: "list/" + kind + "@" + site, Msg: strings.Join(hist, "; ") + "\n" + msg})
 	}
 	return
+}
+
+// touchItems - change every item of a derived list in place (nested lists / dictionaries grow,
+// numbers are incremented)
+func touchItems(list r.Element, n int) {
+	for i := 1; i <= n; i++ {
+		item, err := h.ListGet(list, i)
+		if err != nil {
+			return
+		}
+		switch x := item.(type) {
+		case *value.Array:
+			x.ExecMethod("后增", []r.Element{value.NewString("仅在副本中")})
+		case *value.HashMap:
+			x.ExecMethod("写入", []r.Element{value.NewString("仅在副本中"), value.NewNumber(1)})
+		case *value.Number:
+			x.ExecMethod("自增", []r.Element{value.NewNumber(1)})
+		}
+	}
 }
 
 func initVals(idx []int) []zn.Value {
@@ -739,6 +760,9 @@ func runDict(hs *history) (fails []h.Failure) {
 					fail("values-order", "所有值: "+why)
 					return
 				}
+				// the list of values is a list of its own: changing its items in place leaves the
+				// dictionary alone (the JSON text below and the next comparison would show it)
+				touchItems(vs, len(model.keys))
 				ln, _ := hm.GetProperty("长度")
 				if ok, why := zn.Same(ln, float64(len(model.keys))); !ok {
 					fail("length", why)
